@@ -7,25 +7,33 @@
 //	media    all Accept headers of <= N ranges over a range alphabet (type x params x
 //	         q-form) x separators x all ordered offer lists of <= 3 distinct offers
 //	tokens   the same for Accept-Charset / -Encoding / -Language over a token alphabet
+//	repeat   two identical calls inside one handler (getOffer writes into the header
+//	         buffer): the second answer is judged too
 //	format   Format over handler lists incl. "default", AutoFormat
-//	pool     every ordered pair of headers of a sub-alphabet back-to-back on one app
-//	         (sequential, so that the parameter-map pool really recycles): the second
-//	         answer must equal the answer the same request gets on a flushed pool
+//	pool     every ordered pair of headers of a 40-header sub-alphabet back-to-back on
+//	         one app, in a GOMAXPROCS=1 worker process (so that the parameter-map pool
+//	         really recycles and can be flushed cheaply): the second answer must equal
+//	         the answer the same request gets on a flushed pool
 //	totality every byte string of <= L symbols of a hostile alphabet as header
 //
-// A violating case is reported only when it is minimal (no single range / byte /
-// offer can be removed without losing the disagreement); it is then simplified
-// (params, q-form, separator, concrete type, offer spelling) and the signature is
-// the shape of the simplified case, a pure function of the case (deterministic).
+// One request carries one header; the handler asks for every offer list in turn
+// (the header bytes are restored before each call), so one evaluation is one call
+// of the real function. A violating case is reported only when it is minimal (no
+// single range / byte / offer can be removed without losing the disagreement); it
+// is then simplified (parameters, q-form, separator, concrete type, offer spelling
+// are replaced by canonical spellings as long as the disagreement stays) and the
+// signature names what is left: the non-canonical syntax that is needed for the
+// failure, or - if none is left - the abstract shape of the case. The signature is
+// a pure function of the case, hence deterministic.
 package main
 
 import (
 	"fmt"
 	"hash/fnv"
 	"os"
-	"sort"
 	"runtime"
 	"runtime/pprof"
+	"sort"
 	"strings"
 	"sync"
 	"syscall"
@@ -193,18 +201,19 @@ type worker struct {
 	fctx fasthttp.RequestCtx
 	req  fasthttp.Request
 
-	mode    int
-	hname   string
-	hdr     string
-	present bool
-	repeat  bool
-	lists   [][]string
-	res    []string
-	pan    []string
-	aux    []string
-	fmtH   map[string]fiber.Handler
-	chosen string
-	vary   int64
+	mode     int
+	hname    string
+	hdr      string
+	present  bool
+	repeat   bool
+	lists    [][]string
+	res      []string
+	pan      []string
+	aux      []string
+	fmtH     map[string]fiber.Handler
+	chosen   string
+	vary     int64
+	fmtCalls int64
 
 	bufRes, bufPan, bufAux []string
 	bad                    []bool
@@ -329,6 +338,7 @@ func (w *worker) call(f *family, hdr string, present bool, slists [][]string, re
 			fx.CallInto(&w.fctx, w.h, &w.req, nil, false)
 			status := w.fctx.Response.StatusCode()
 			ct := string(w.fctx.Response.Header.ContentType())
+			w.fmtCalls++
 			if string(w.fctx.Response.Header.Peek("Vary")) == "Accept" {
 				w.vary++
 			}
@@ -539,11 +549,13 @@ func (w *worker) judge(l *core.Local, f *family, hc hcase, st *stats) {
 	}
 	anyBad := false
 	var refList [4]string
-	sampled := len(l.P.Samples) >= 3
-	if !sampled {
+	sampleAt := -1 // a few non-trivial cases are kept as samples, picked by a hash of the header
+	if len(l.P.Samples) < 3 {
 		hh := fnv.New32a()
 		hh.Write([]byte(hdr))
-		sampled = hh.Sum32()%257 != 0
+		if hv := hh.Sum32(); hv%61 == 0 {
+			sampleAt = int(hv/61) % n
+		}
 	}
 	for li := 0; li < n; li++ {
 		rl := f.rlists[li]
@@ -571,8 +583,7 @@ func (w *worker) judge(l *core.Local, f *family, hc hcase, st *stats) {
 		}
 		if judged && mask != 1 && hc.present {
 			st.nontrivial++
-			if !sampled && len(rl) == 3 && kind == "" {
-				sampled = true
+			if li == sampleAt && kind == "" {
 				l.Sample(map[string]any{"function": f.name, "header": hdr, "offers": f.slists[li], "observed": res[li], "admissible": maskText(mask, refList[:len(rl)])})
 			}
 		}
@@ -689,6 +700,35 @@ func offerMime(o string) (mime, params string, ext bool) {
 	return o, params, false
 }
 
+// elemCost orders the spellings of one range from canonical (cheap) to exotic.
+func elemCost(e elem, firstOfferType string) int {
+	c := 0
+	switch {
+	case strings.HasPrefix(e.T, "x-none"):
+	case e.T == firstOfferType:
+		c += 100
+	default:
+		c += 200
+	}
+	switch {
+	case e.P == "":
+	case e.P == strings.ToLower(e.P) && !strings.Contains(e.P, `"`):
+		c += 10
+	case e.P == strings.ToLower(e.P) || !strings.Contains(e.P, `"`):
+		c += 20
+	default:
+		c += 30
+	}
+	switch {
+	case e.Q == "":
+	case strings.HasPrefix(e.Q, ";q=") && strings.Count(e.Q, ";") == 1:
+		c++
+	default:
+		c += 2
+	}
+	return c
+}
+
 var famAcceptsPlain = &family{name: "Accepts", mode: mAccepts, header: "Accept", media: true}
 
 func (w *worker) report(l *core.Local, f *family, hc hcase, offers []string) {
@@ -704,13 +744,24 @@ func (w *worker) report(l *core.Local, f *family, hc hcase, offers []string) {
 		}
 		_, gotF, _ := w.single(f, hc, offers)
 		if len(types) > 0 {
-			if kindA, gotA, _ := w.single(famAcceptsPlain, hc, types); kindA != "" && gotA == gotF {
+			if kindA, gotA, _ := w.single(famAcceptsPlain, hc, types); kindA != "" && (gotA == gotF || f.mode == mAuto) {
 				l.Add("violations_of_"+f.name+"_attributed_to_Accepts", 1)
 				return
 			}
 		}
 	}
 	orig := map[string]any{"function": f.name, "header": hc.text(), "header_present": hc.present, "offers": offers}
+	historyDependent := func(got string, want []string) {
+		// the batch saw a wrong answer, the same request issued again is answered
+		// correctly: the answer depends on what was served before (shared state)
+		l.Violate(f.name+" answers the same request differently depending on earlier requests",
+			"a wrong answer was observed that is not reproduced when the identical request is issued again (state shared between requests)",
+			orig, got, want)
+	}
+	if k0, got0, want0 := w.single(f, hc, offers); k0 == "" {
+		historyDependent("(wrong in the batch) then "+got0, want0)
+		return
+	}
 	offers = append([]string(nil), offers...)
 	if hc.el != nil {
 		hc.el = append([]elem(nil), hc.el...)
@@ -722,8 +773,19 @@ func (w *worker) report(l *core.Local, f *family, hc hcase, offers []string) {
 	still := func(h hcase, o []string) bool { k, _, _ := w.single(f, h, o); return k != "" }
 	for changed := true; changed; {
 		changed = false
+		firstType := ""
+		for _, o := range offers {
+			if o != "default" {
+				firstType = o
+				if f.media {
+					firstType, _, _ = offerMime(o)
+				}
+				break
+			}
+		}
+		// a step is taken only if it lowers the spelling cost of the range, so the loop terminates
 		try := func(k int, ne elem) {
-			if ne == hc.el[k] {
+			if ne == hc.el[k] || elemCost(ne, firstType) >= elemCost(hc.el[k], firstType) {
 				return
 			}
 			old := hc.el[k]
@@ -814,8 +876,9 @@ func (w *worker) report(l *core.Local, f *family, hc hcase, offers []string) {
 		}
 	}
 	kind, got, want := w.single(f, hc, offers)
-	if kind == "" { // cannot happen: every accepted step kept the disagreement
-		core.Fatal("C09: simplified case no longer disagrees: %v", orig)
+	if kind == "" { // every accepted step kept the disagreement, so the implementation changed its mind
+		historyDependent(got, want)
+		return
 	}
 	sig := signature(f, kind, hc, offers, w.onePan[0])
 	cs := map[string]any{"function": f.name, "header": hc.text(), "header_present": hc.present, "offers": offers, "found_as": orig}
@@ -1068,6 +1131,9 @@ var mediaParams = []string{"", ";level=1", ";a=1;b=2", `;charset="utf-8"`, `;t="
 var qForms = []string{"", ";q=1", ";q=0.5", ";q=0.123", ";q=0", "; q=0.5", ";q=0.5;ext=1", ";Q=0.5"}
 var separators = []string{",", ", ", " , "}
 
+// further list syntax of RFC 9110 5.6.1 (OWS = SP / HTAB; empty elements are ignored), used for 2 ranges only
+var rareSeparators = []string{",\t", ",,"}
+
 var mediaOffers = []string{"html", "json", "txt", "png", "text/html", "text/html;level=1", "text/plain;charset=utf-8",
 	"application/json", "a/b;a=1;b=2", `a/b;t="x,y"`, "text/plain"}
 
@@ -1190,6 +1256,10 @@ func poolPhase(r *core.Run, fam, lang *family) {
 	one(elem{"*/*", "", "; q=0.5"}, elem{"text/*", "", "; q=0.5"})
 	one(elem{"text/html", ";level=1", ";q=0"}, elem{"text/html", "", "; q=0.5"})
 	one(elem{"text/html", "", ""}, elem{"application/json", "", ";q=0.5"})
+	one(elem{"text/html", ";level=1", ";q=0.5"})
+	one(elem{"text/html", ";Level=1", ""})
+	one(elem{"text/*", ";a=1;b=2", ";q=0.5"}, elem{"text/html", "", ""})
+	one(elem{"a/b", `;t="x,y"`, ";q=0.5"}, elem{"a/b", ";a=1;b=2", ""})
 	var lsub []hcase
 	for _, es := range [][]elem{
 		{{"en", "", "; q=0.5"}, {"gzip", "", "; q=0.5"}}, {{"gzip", "", "; q=0.5"}, {"en", "", "; q=0.5"}},
@@ -1235,7 +1305,13 @@ func poolPhase(r *core.Run, fam, lang *family) {
 					}
 					l.Outcome(fmt.Sprintf("pool-pair %s second-equals-flushed-pool-answer=%v", tag, got == fr[bi][li]))
 					if got != fr[bi][li] {
-						sig := fmt.Sprintf("pool-recycling %s second=[%s] after first=[%s]", tag, shapeOf(b), shapeOf(a))
+						np := 0
+						for _, e := range a.el {
+							if c := strings.Count(e.P, "="); c > np {
+								np = c
+							}
+						}
+						sig := fmt.Sprintf("pool-recycling %s: answer differs from the flushed-pool answer after a request whose ranges carried up to %d parameter(s)", tag, np)
 						l.Violate(sig, "the answer to a request depends on the request served before it (recycled parameter map)",
 							map[string]any{"first_function": fa.name, "first_header": a.text(), "second_function": fb.name, "second_header": b.text(), "offers": fb.slists[li]},
 							got, fr[bi][li])
@@ -1250,21 +1326,41 @@ func poolPhase(r *core.Run, fam, lang *family) {
 	r.Merge(l.P)
 }
 
-func shapeOf(h hcase) string {
-	var s []string
-	for _, e := range h.el {
-		c := "t/s"
-		switch {
-		case e.T == "*/*" || e.T == "*":
-			c = e.T
-		case strings.HasSuffix(e.T, "/*"):
-			c = "t/*"
-		case !strings.Contains(e.T, "/"):
-			c = "tok"
+// capShapes keeps the report readable when the implementation is wrong wholesale (a
+// semantic mutant produces hundreds of minimal shapes): per function and kind the
+// first maxShapes full-shape signatures in lexical order are kept (a deterministic
+// choice, the set of minimal shapes being a function of the implementation), the
+// others are folded into one overflow signature. Syntax-class signatures are never folded.
+const maxShapes = 12
+
+func capShapes(r *core.Run) {
+	groups := map[string][]string{}
+	for sig := range r.P.Violations {
+		for _, mark := range []string{" ranges=[", " raw-header="} {
+			if i := strings.Index(sig, mark); i >= 0 {
+				groups[sig[:i]] = append(groups[sig[:i]], sig)
+				break
+			}
 		}
-		s = append(s, c+e.P+e.Q)
 	}
-	return strings.Join(s, ",")
+	for g, sigs := range groups {
+		if len(sigs) <= maxShapes {
+			continue
+		}
+		sort.Strings(sigs)
+		over := &core.Violation{Signature: g + " (further minimal shapes beyond the first " + fmt.Sprint(maxShapes) + ")",
+			What: "more distinct minimal violating shapes of the same function and kind than are listed individually"}
+		for _, sig := range sigs[maxShapes:] {
+			v := r.P.Violations[sig]
+			if over.Case == nil {
+				over.Case, over.Observed, over.Expected = v.Case, v.Observed, v.Expected
+			}
+			over.Count += v.Count
+			delete(r.P.Violations, sig)
+		}
+		r.P.Violations[over.Signature] = over
+		r.Add("minimal_shapes_folded_into_overflow_signatures", int64(len(sigs)-maxShapes))
+	}
 }
 
 // ---------------------------------------------------------------------------
@@ -1367,8 +1463,6 @@ func main() {
 		poolDone <- r.SpawnWorkers(1, []string{"GOMAXPROCS=1"})
 	}()
 
-	phase("pool")
-
 	// 2. media ranges
 	otherSeps := separators[1:]
 	a16 := product([]string{"*/*", "text/*", "text/html", "text/plain"}, []string{""}, []string{"", ";q=0.5", ";q=0"})
@@ -1391,6 +1485,10 @@ func main() {
 			"(6 types x 5 parameter forms x 8 q-forms) x 3 separators x the same lists; exactly 3 ranges over the 240-range alphabet joined by ',' x ordered lists of <=2 offers; "+
 			"exactly 4 ranges over a %d-range alphabet joined by ',' x lists of <=3 offers", len(a4))
 	}
+
+	enumerate(r, "media_rare_sep", famA, a60, 2, 2, rareSeparators)
+	enumerate(r, "tokens_rare_sep", famL, tokAlpha, 2, 2, rareSeparators)
+	bounds["rare_separators"] = "Accept (60-range alphabet) and Accept-Language (49-range alphabet): 2 ranges joined by ',<HTAB>' and ',,' x ordered lists of <=3 offers"
 
 	phase("media")
 
@@ -1444,7 +1542,6 @@ func main() {
 			w.judge(l, f, hcase{present: false}, st)
 			st.flush(l)
 		}
-		l.Add("format_responses_with_vary_accept", 0)
 		r.Merge(l.P)
 		workers.put(w)
 	}
@@ -1468,11 +1565,16 @@ func main() {
 	phase("pool-join")
 	stopProfile()
 
-	var vary int64
+	capShapes(r)
+
+	// Vary: Accept is not part of the statement; it is counted, not judged
+	var vary, fmtCalls int64
 	for _, w := range workers.free {
 		vary += w.vary
+		fmtCalls += w.fmtCalls
 	}
 	r.Add("format_responses_with_vary_accept", vary)
+	r.Add("format_responses_total", fmtCalls)
 
 	r.Finish(core.Evidence{
 		Level:      "exploration",
